@@ -96,11 +96,25 @@ def roles(crate):
     return adt, find, p, sz
 
 
+def _cmp_call(t):
+    """`PartialOrd::gt(&x, &y)` reached through a helper generic over the key type (`order_by(a, b, |r| self.size[r])`): the
+    keys are the usize sizes, so the call is the integer comparison of the referents"""
+    if isinstance(t, tuple) and t and t[0] == "call" and "PartialOrd" in str(t[1]) and str(t[1]).rsplit("::", 1)[-1] in ("lt", "le", "gt", "ge"):
+        a = [x for x in t[2] if not (isinstance(x, tuple) and x and x[0] == "mem")]
+        if len(a) == 2 and all(isinstance(x, tuple) and x and x[0] == "ref" for x in a):
+            vals = [x[1][1] if x[1][0] == "constval" else ("load", ("m0",), x[1]) for x in a]
+            op = {"lt": "Lt", "le": "Le", "gt": "Gt", "ge": "Ge"}[str(t[1]).rsplit("::", 1)[-1]]
+            return ("bin", op, vals[0], vals[1])
+    return t
+
+
 def helpers_of(crate, find):
     """private, non-recursive inherent methods of DSU: judged in the context of their callers (inlined)"""
     hs = [b for b in util.methods_of(crate, "DSU") if b.vis != "pub" and b.key != find.key and not util.self_recursive(b)]
     if roles.forwarder is not None:
         hs.append(roles.forwarder)
+    # private free functions too (`order_by(a, b, |x| self.size[x])`: a generic helper taking the key as a closure)
+    hs += [b for b in crate.bodies if not b.is_closure and b.kind == "Fn" and b.container is None and b.vis != "pub" and not util.self_recursive(b) and b.key != find.key]
     return hs
 
 
@@ -167,7 +181,7 @@ def check(col, prog, tier, profile, fixture=None):
             szx = I.load(mem0, ("index", ("field", base, SZ), x))
             szy = I.load(mem0, ("index", ("field", base, SZ), y))
             szx, szy = _nf(szx), _nf(szy)
-            facts = frozenset(("eq" if f[0] == "eq" else "ne", _nf(f[1]), f[2]) for f in st.facts)
+            facts = frozenset(("eq" if f[0] == "eq" else "ne", _nf(_cmp_call(f[1])), f[2]) for f in st.facts)
             ok = zones.entails(facts, "Le", szx, szy, I.tys)
             loc = ev_loc(crate, un, ev)
             if ok:
@@ -266,9 +280,10 @@ def check(col, prog, tier, profile, fixture=None):
                 allowed.add(h.name)
                 changed = True
     writers = set()
+    clone_ok = util.structural_clone_bodies(crate, adt)   # a hand-written Clone verified to copy field by field
     for b in crate.bodies:
         imp = crate.impl_of(b)
-        if imp is not None and imp.get("derived"):
+        if (imp is not None and imp.get("derived")) or b.key in clone_ok:
             continue
         for bb, idx, s in b.statements():
             if s["k"] != "assign":
